@@ -152,6 +152,24 @@ def eval_ik(P, case, out):
         jm = max(np.abs(np.array(s8.getBottomJoints(), float) - pg.to_space(G_RIGID @ P.B, P.bl)).max(),
                  np.abs(np.array(s8.getTopJoints(), float) - pg.to_space(G_RIGID @ Tt, P.tl)).max())
     out.append(("pose_objects_moved_in_place", max(float(np.abs(np.array(Lm, float).reshape(6) - want).max()), float(jm)), TOL_IK * 10, None))
+    if ok and i % 5 == 2:
+        # FK with the bottom plate given explicitly somewhere else (the whole platform carried along by one rigid motion):
+        # where FK from the platform's own base recovers the pose, FK at the other base recovers the moved pose, and lengths,
+        # joints and the bottom pose on record belong to the NEW base
+        sA = P.fresh()
+        with splib.quiet():
+            topA, _ = sA.FK(want.copy(), fk_mode=1)
+        angA, distA = se3.pose_err(splib.T_of(topA), Tt)
+        if max(distA, angA * P.h) <= 1e-4 * P.h:
+            sB = P.fresh()
+            B2 = G_RIGID @ P.B
+            with splib.quiet():
+                topB, _ = sB.FK(want.copy(), tm(B2.copy()), fk_mode=1)
+            angB, distB = se3.pose_err(splib.T_of(topB), G_RIGID @ Tt)
+            dl = float(np.abs(np.array(sB.getLens(), float).reshape(6) - want).max())
+            dj = float(np.abs(np.array(sB.getBottomJoints(), float) - pg.to_space(B2, P.bl)).max())
+            db = float(np.abs(splib.T_of(sB.getBottomT()) - B2).max())
+            out.append(("fk_at_explicit_base", float(max(distB, angB * P.h, dl, dj, db)) / P.h, 1e-3, None))
     if ok and P.spin != "s0" and i in RESPIN_AT:
         # forward kinematics used BEFORE the re-spin (anything the solver builds on first use is built for the old tables),
         # then re-spun, then asked for this pose: must answer as the platform that was re-spun before its first FK
